@@ -421,6 +421,11 @@ def check_boundary_types(ctx, rule: str) -> None:
     ids = ["R1"]
     for k in KINDS:
         ids += [f"{x}r" if x.endswith("_") else f"r_{x}_1" for x in excludes[k][:3]]
+    # the markers are naming conventions as spelled: an ordinary identifier that merely contains the letters of a marker
+    # in another case (BiGG's EX_asn__L_e holds 'sn_') carries no marker
+    ids.append("EX_asn__L_e")
+    for k in KINDS:
+        ids += [f"R_{x.swapcase()}r_e" for x in excludes[k][:3] if x.swapcase() != x]
     ids = list(dict.fromkeys(ids))
     n = 0
     problems: List[str] = []
